@@ -144,9 +144,15 @@ def run(eng, rep, tier):
                 "PDA.intersection is not a closure worklist")
     keep = False
     for sub in ast.walk(f2.node):
-        if isinstance(sub, ast.If) and "Epsilon()" in ast.unparse(sub.test) and "==" in ast.unparse(sub.test):
+        if isinstance(sub, ast.If) and "Epsilon()" in ast.unparse(sub.test):
+            test, neg = sub.test, False
+            while isinstance(test, ast.UnaryOp) and isinstance(test.op, ast.Not):
+                test, neg = test.operand, not neg
+            if isinstance(test, ast.Compare) and isinstance(test.ops[0], ast.NotEq):
+                neg = not neg
+            branch = sub.orelse if neg else sub.body
             if any(isinstance(st, ast.Assign) and isinstance(st.value, ast.List) and len(st.value.elts) == 1 and
-                   isinstance(st.value.elts[0], ast.Name) for st in sub.body):
+                   isinstance(st.value.elts[0], ast.Name) for st in branch):
                 keep = True
     ob.decide("R1", "C11.3", f2, "epsilon-keeps-automaton-state", keep,
               "on an epsilon move of the PDA the automaton stays in its state",
